@@ -13,6 +13,8 @@ From CB Require Import Trie.PrefixMap.
 From CB Require Import Trie.PrefixMapProofs.
 From CB Require Import Trie.Locks.
 From CB Require Import Trie.LocksProofs.
+From CB Require Import Trie.InstanceState.
+From CB Require Import Trie.InstanceStateProofs.
 Import ListNotations.
 Local Open Scope N_scope.
 
@@ -129,6 +131,99 @@ Theorem handle_to_deleted_entry_invalid : forall k g e h v,
   m_read h g' = (g', RVal None) /\ m_set h v g' = (g', RBool false) /\ m_mut h v g' = (g', RVal None).
 Proof. exact deleted_entry_invalid. Qed.
 Print Assumptions handle_to_deleted_entry_invalid.
+
+(** ** The contract-visible handle layer (InstanceState.v: [current_generation], the
+    handle and iterator tables, the u64 / u32 encodings, [migrate] on resume) *)
+
+(** An id whose generation is not the current one is answered with the invalid encoding
+    (u32::MAX, resp. the error id for [iterator_next]) by every handle operation, and the
+    trie generation - tree, entries, locks, tables - is untouched (only the write operations
+    set [changed], as the code does before looking at the id). *)
+Theorem stale_handle_invalid : forall o i g,
+  is_handle_op o = true -> id_gen (op_id o) <> is_gen i ->
+  c_op o (i, g) = ((after_invalid o i, g), invalid_answer o).
+Proof. exact stale_id_invalid. Qed.
+Print Assumptions stale_handle_invalid.
+
+(** The same for an id of the current generation whose index was never handed out ... *)
+Theorem forged_handle_invalid : forall o i g,
+  is_handle_op o = true ->
+  (match o with
+   | CNext _ | CIterDelete _ | CIterKey _ => id_idx (op_id o) (length (g_iters g)) = None
+   | _ => id_idx (op_id o) (length (g_handles g)) = None
+   end) ->
+  c_op o (i, g) = ((after_invalid o i, g), invalid_answer o).
+Proof. exact forged_index_invalid. Qed.
+Print Assumptions forged_handle_invalid.
+
+(** ... and for an id of a deleted entry; deleting a key makes every id of it such a
+    tombstone. *)
+Theorem tombstone_handle_invalid : forall o i g h e,
+  (match o with CRead _ | CSize _ | CWrite _ _ _ | CResize _ _ => true | _ => false end) = true ->
+  id_idx (op_id o) (length (g_handles g)) = Some h ->
+  nth_error (g_handles g) h = Some e -> ent_get (g_ents g) e = None ->
+  c_op o (i, g) = ((after_invalid o i, g), invalid_answer o).
+Proof. exact tombstone_invalid. Qed.
+Print Assumptions tombstone_handle_invalid.
+
+Theorem delete_entry_makes_tombstones : forall k i g e h,
+  lookup_root (nib k) (g_root g) = Some e -> snd (m_delete k g) <> RLocked ->
+  nth_error (g_handles g) h = Some e ->
+  let g' := snd (fst (c_op (CDelete k) (i, g))) in
+  nth_error (g_handles g') h = Some e /\ ent_get (g_ents g') e = None.
+Proof. exact deleted_entry_ids_invalid. Qed.
+Print Assumptions delete_entry_makes_tombstones.
+
+(** A freshly handed out id denotes exactly the entry it was handed out for (so "invalid"
+    is not the answer to everything). *)
+Theorem fresh_id_valid : forall k i g e v,
+  lookup_root (nib k) (g_root g) = Some e -> ent_get (g_ents g) e = Some v ->
+  N.of_nat (length (g_handles g)) < TWO32 ->
+  let r := c_op (CLookup k) (i, g) in
+  snd r = XId (enc (is_gen i) (length (g_handles g)))
+  /\ entry_of (fst (fst r)) (snd (fst r)) (enc (is_gen i) (length (g_handles g))) = Some (e, v).
+Proof. exact lookup_id_valid. Qed.
+Print Assumptions fresh_id_valid.
+
+(** Interrupts: a complete re-entrant call (any properly nested operations, ended with
+    success or failure) leaves the frames below the caller untouched and resumes the caller
+    by [resume] (= [InstanceState::migrate]).  If the call succeeded and touched the state,
+    the generation counter moves on and EVERY id the caller was given before is answered
+    as invalid; otherwise the caller continues on exactly its own generation record with
+    the same counter, and every operation answers exactly as it would have before the
+    interrupt. *)
+Theorem migrate_invalidates_iff_changed : forall inner_ops commit f rest,
+  balanced 0 inner_ops = true ->
+  exists top,
+    c_exec (CInterrupt :: inner_ops ++ [CEnd commit]) (f :: rest) = Some (resume commit top f :: rest)
+    /\ (commit && touched top = true ->
+        is_gen (fst (resume commit top f)) = is_gen (fst f) + 1
+        /\ forall o, is_handle_op o = true -> id_gen (op_id o) = is_gen (fst f) ->
+             c_op o (resume commit top f)
+             = ((after_invalid o (fst (resume commit top f)), snd (resume commit top f)), invalid_answer o))
+    /\ (commit && touched top = false ->
+        snd (resume commit top f) = snd f
+        /\ is_gen (fst (resume commit top f)) = is_gen (fst f)
+        /\ forall o, snd (c_op o (resume commit top f)) = snd (c_op o f)
+                     /\ snd (fst (c_op o (resume commit top f))) = snd (fst (c_op o f))).
+Proof. exact migrate_iff_changed. Qed.
+Print Assumptions migrate_invalidates_iff_changed.
+
+Example interrupt_with_and_without_update :
+  (* create a, b; iterate; interrupt: inner call creates c and fails -> ids still valid;
+     interrupt: inner call creates c and succeeds -> ids invalid, new generation 1 *)
+  c_run [CCreate [97]; CCreate [98]; CIter []; CNext (enc 0 0);
+         CInterrupt; CCreate [99]; CEnd false;
+         CRead (enc 0 0); CNext (enc 0 0);
+         CInterrupt; CCreate [99]; CEnd true;
+         CRead (enc 0 0); CNext (enc 0 0); CLookup [99]; CRead (enc 1 0)] c_init
+  = [XId (enc 0 0); XId (enc 0 1); XId (enc 0 0); XId (enc 0 2);
+     XMark; XId (enc 0 0); XMark;
+     XBytes []; XId (enc 0 3);
+     XMark; XId (enc 0 0); XMark;
+     XInvalid; XId ID_ERR; XId (enc 1 0); XBytes []].
+Proof. vm_compute. reflexivity. Qed.
+Print Assumptions interrupt_with_and_without_update.
 
 (** ** Non-vacuity *)
 Example nested_and_equal_prefixes :
